@@ -165,6 +165,7 @@ def cg(A: LinearOperator, B: torch.Tensor,
 
         if torch.all(resid_norm < stop_matrix):
             converge = True
+            best_xk = xk_1
             break
 
         zk_1 = precond_fcn(rk_1)
@@ -309,6 +310,7 @@ def bicgstab(A: LinearOperator, B: torch.Tensor,
         # check for the stopping conditions
         if torch.all(resid_norm < stop_matrix):
             converge = True
+            best_xk = xk
             break
 
         rho_k = rho_knew
@@ -422,6 +424,7 @@ def gmres(A: LinearOperator, B: torch.Tensor,
 
             if torch.all(resid_norm < stop_matrix):
                 converge = True
+                best_res = res
                 break
 
     if not converge:
